@@ -144,6 +144,127 @@ def chains(run):
                     run.add(f"C16/error-bounded-all-zero[{tag}]/path{pi}", hy + facts2 + [zero, fin(dq)], z3.fpIsZero(dq), "property", inst, replay=rp, timeout=FT)
 
 
+SRC_ZL = """
+def prog(w, x, b, qtype):
+    qw = quantize_weight(w, qtype, 0)
+    return qw, torch.nn.functional.linear(x, qw, b)
+"""
+
+
+def zero_layer(run):
+    """'A layer whose weights are all zero outputs exactly its bias': bit-precise run of quantize_weight(0-matrix) followed by the
+    quantized linear function, for a symbolic number of rows, features and batch.  The contraction enters as an uninterpreted sum:
+    (zl-1) every summand of it is (+-)0 [proved], (zl-2) given that the sum is then (+-)0 [A-TORCH-RED: a sum of zeros is zero], the
+    output element equals the bias element [proved]."""
+    from props.C07 import occurrences, sums_in
+    FT = 120 if run.tier == "quick" else 900
+    dtypes = ["float16"] + (["bfloat16", "float32"] if run.tier == "thorough" else [])
+    for qname in ("qint8", "qint4", "qint2", "qfloat8_e4m3fn"):
+        for dtype in dtypes:
+            for bias in (True, False):
+                if run.tier == "quick" and not bias and qname != "qint8":
+                    continue
+                inst = {"path": "zero-layer", "qtype": qname, "dtype": dtype, "bias": bias}
+                run.count_instance(**inst)
+                E = engine(run)
+                E.load_module("optimum/quanto/library/__init__.py")
+                E.load_module("optimum/quanto/tensor/qtensor_func.py")
+                qt = E.load_module(QTYPE).env.lookup(qname)
+                prog = E.snippet(SRC_ZL, QW)
+                N, K, B = z3.Ints("N K B")
+                srt = E.alg.fpsort(dtype)
+
+                def setup(E2, qt=qt, dtype=dtype, bias=bias):
+                    E2.assume(N >= 2)
+                    E2.assume(K >= 1)
+                    E2.assume(B >= 1)
+                    return [new_input(E2, "W", dtype, [N, K]), new_input(E2, "X", dtype, [B, K]), new_input(E2, "Bi", dtype, [N]) if bias else None, qt], {}
+
+                tag = f"{qname}/{dtype}/{'bias' if bias else 'nobias'}"
+                fam = "float8" if qname.startswith("qfloat8") else "int"
+                try:
+                    res = E.explore(prog, setup, name="C16.zero-layer")
+                except Unsupported as u:
+                    run.undecide(f"C16/{fam}/zero-layer[{tag}]", u, inst)
+                    continue
+                run.absorb(E)
+                if not run.expect_paths(res, f"C16/{fam}/zero-layer[{tag}]", inst):
+                    continue
+                rp = lambda m, sd, i=dict(inst): replay_zero_layer(m, sd, i)
+                i, j, k = z3.Ints("i j k")
+                for pi, r in enumerate(res):
+                    if r.outcome == "raise":
+                        run.add(f"C16/{fam}/zero-layer-no-exception[{tag}]/path{pi}:{r.value.tname}", r.hyps, z3.BoolVal(False), "property", inst, replay=rp)
+                        continue
+                    E.focus(r)
+                    qw, out = r.value
+                    run.add(f"C16/{fam}/zero-layer-shape[{tag}]/path{pi}", r.hyps, z3.And(lib.shape_eq(out.shape, [B, N]), z3.BoolVal(out.dtype == dtype)), "property", inst, replay=rp)
+                    if len(out.shape) != 2:
+                        continue
+                    E.drain()
+                    got = out.elem([i, j])
+                    wf = z3.Function("W", z3.IntSort(), z3.IntSort(), srt)
+                    xf = z3.Function("X", z3.IntSort(), z3.IntSort(), srt)
+                    bf = z3.Function("Bi", z3.IntSort(), srt)
+
+                    def given(name, idx):
+                        if name == "W":
+                            return z3.fpIsZero(wf(*idx))
+                        if name == "X":
+                            return fin(xf(*idx))
+                        if name == "Bi":
+                            return fin(bf(*idx))
+                        return None
+
+                    S_all = [s_ for s_ in sums_in(E, got)]
+                    if len(S_all) != 1:
+                        run.undecide(f"C16/{fam}/zero-layer[{tag}]/path{pi}", f"expected one contraction in the output element, found {len(S_all)}", inst)
+                        continue
+                    S = S_all[0]
+                    occ = occurrences(got, S.term.decl().name())
+                    if len(occ) != 1:
+                        run.undecide(f"C16/{fam}/zero-layer[{tag}]/path{pi}", "the contraction occurs at several indices", inst)
+                        continue
+                    sargs = [occ[0].arg(t) for t in range(occ[0].num_args())]
+                    fk = S.summand(k)
+                    facts = reduction_facts(E, extra_points=[[j, k], [j, 0]]) + lib.touched_facts(E, given) + E.drain()
+                    hy = r.hyps + [i >= 0, i < B, j >= 0, j < N] + facts
+                    same_idx = z3.And(*[a == zi(b_) for a, b_ in zip(sargs, [i, j])]) if len(sargs) == 2 else z3.BoolVal(True)
+                    if z3.is_fp(fk):
+                        zsum, zk = z3.fpIsZero(occ[0]), z3.fpIsZero(fk)
+                    else:
+                        zsum, zk = occ[0] == 0, fk == 0
+                    run.add(f"C16/{fam}/zero-layer-summands-are-zero[{tag}]/path{pi}", hy + [k >= 0, k < K], z3.And(zk, same_idx), "property", inst, replay=rp, timeout=FT)
+                    want = bf(j) if bias else z3.FPVal(0.0, srt)
+                    run.add(f"C16/{fam}/zero-layer-outputs-bias[{tag}]/path{pi}", hy + [zsum], z3.fpEQ(got, want), "property", inst, replay=rp, timeout=FT)
+
+
+def replay_zero_layer(model, seed, inst):
+    import torch
+    from optimum.quanto import qtypes, quantize_weight
+
+    dt = {"float16": torch.float16, "bfloat16": torch.bfloat16, "float32": torch.float32}[inst["dtype"]]
+    torch.manual_seed(seed)
+    for (n, k, b) in ((2, 1, 1), (8, 16, 3), (5, 48, 17), (32, 64, 24)):
+        w = torch.zeros(n, k, dtype=dt)
+        if n > 2:
+            w[1] = -0.0
+        x = (torch.randn(b, k) * 50).to(dt)
+        bias = torch.randn(n).to(dt) if inst["bias"] else None
+        try:
+            qw = quantize_weight(w, qtypes[inst["qtype"]], 0)
+            out = torch.nn.functional.linear(x, qw, bias)
+        except Exception as e:
+            return {"what": f"raises {type(e).__name__}: {str(e)[:150]}", "n_k_b": [n, k, b]}
+        want = bias.expand(b, n) if bias is not None else torch.zeros(b, n, dtype=dt)
+        if tuple(out.shape) != (b, n) or not torch.equal(out, want):
+            bad = (out != want) if tuple(out.shape) == (b, n) else None
+            return {"what": "a layer with all-zero weights does not output its bias", "n_k_b": [n, k, b], "qtype": inst["qtype"], "dtype": inst["dtype"],
+                    "first_bad": (out[bad][:3].tolist() if bad is not None else list(out.shape))}
+    return None
+
+
+
 def build(run):
     from props import conformance
 
@@ -153,16 +274,19 @@ def build(run):
                "A-TORCH-RED amax/amin: bound + attained (NaN-free inputs)", "PackedTensor / group contracts (C04 / C02)")
     run.assumptions += ["rows/groups of unbounded length enter through the reduction axioms", "float32 chains in the thorough tier only",
                         "'moderate' = largest magnitude of the row in (0, dtype_max/4]; 'extreme' = above; the extreme and (float8) all-zero cases are known findings"]
-    run.not_decided += ["'a layer whose weights are all zero outputs exactly its bias' (contraction of zeros; decided under C07 in the R algebra only)",
+    run.assumptions += ["zero-layer clause: F.linear(x, quantize_weight(0, qtype, axis 0), bias) with float activations (the QLinear forward without activation "
+                        "quantization); the contraction is an uninterpreted sum whose summands are proved zero, 'a sum of zeros is zero' is assumed (A-TORCH-RED)"]
+    run.not_decided += ["zero-layer clause with quantized activations / group-wise low-bit weights",
                         "calibration followed by inference across several batches (EMA of scales): the per-batch chain is decided here, the EMA law under C12"]
     E0 = run.engine()
     for key in (f"{ABSO}::AbsmaxOptimizer.optimize", f"{MAXO}::MaxOptimizer.optimize", f"{SYMQ}::SymmetricQuantizer.forward", f"{AFFQ}::AffineQuantizer.forward",
                 f"{QBYTES}::QBytesDequantizer.forward", f"{QBITS}::QBitsDequantizer.forward", f"{CAL}::absmax_scale", f"{QW}::quantize_weight"):
         run.under_contract(E0, key)
-    try:
-        chains(run)
-    except Unsupported as u:
-        run.undecide("C16/chains", f"unsupported: {u}")
+    for nm, part in (("chains", chains), ("zero-layer", zero_layer)):
+        try:
+            part(run)
+        except Unsupported as u:
+            run.undecide(f"C16/{nm}", f"unsupported: {u}")
 
 
 # ------------------------------------------------------------------------------------------------ native replay
@@ -227,6 +351,7 @@ def replay(model, seed, inst):
 def replay_file(path):
     import json
     rec = json.load(open(path))
-    r = replay(rec.get("model") or {}, rec.get("seed", 0), rec["instance"])
+    fn = replay_zero_layer if rec["instance"].get("path") == "zero-layer" else replay
+    r = fn(rec.get("model") or {}, rec.get("seed", 0), rec["instance"])
     print(json.dumps(r, indent=1, default=str))
     return 1 if r else 0
